@@ -448,6 +448,7 @@ package mongokit
 //@   ensures [ghostdef] failTaints(c)
 //@   ensures [C15,C07 name=coherent] imp(err == nil, coherent(c))
 //@   ensures [C15 name=documents-untouched] c.Documents == old(c.Documents) && c.Documents.List == old(c.Documents.List) && all(d, Ref, has(c.Documents.Index, d) == old(has(c.Documents.Index, d)))
+//@   ensures [C15 name=existing-never-replaced] all(n, Str, imp(old(has(c.Indexes, n)), has(c.Indexes, n) && c.Indexes[n] == old(c.Indexes[n])))
 //@   loop 0 invariant true
 // DropIndex only removes entries of the index map.
 //@ func (*Collection).DropIndex
@@ -869,6 +870,7 @@ package mongokit
 //@   ensures [C11 name=plain-value-is-pushed-whole] imp(err == nil && !modifierForm, len(values) == 1 && values[0] == v && !hasPosition && !hasSort && !hasSlice)
 //@   ensures [C11 name=stored-array] imp(err == nil && !hasPosition && !hasSort && !hasSlice, *doc == spec.putPath(old(*doc), path, spec.VArr(newArr), false))
 //@   ensures [C11 name=append-keeps-existing] imp(err == nil && !hasPosition && !hasSort && !hasSlice, len(newArr) == n0 + len(values) && forall(k, 0, n0, newArr[k] == spec.arr(cur)[k]) && forall(k, 0, len(values), newArr[n0 + k] == values[k]))
+//@   ensures [C08,C11 name=new-array-recorded-whole] imp(err == nil && cur == spec.VMissing, has(ch.Changed, path) && ch.Changed[path] == spec.VArr(newArr))
 //@   loop 0 invariant *doc == old(*doc) && nothingRecorded(ch)
 //@   loop 1 invariant *doc == old(*doc) && nothingRecorded(ch)
 //@   loop 2 invariant *doc == spec.putPath(old(*doc), path, spec.VArr(newArr), false)
